@@ -4,8 +4,6 @@ C09.a  chain::chainmonitor::ChainMonitor::channel_monitor_updated: the Completed
        of the channel is pending any more, whatever the order of completions (<= 3 pending updates).
 C09.b  ChainMonitor::update_channel_internal: an update whose persistence is in progress is remembered as pending; the
        update is applied to the monitor before it is persisted; what the caller is told.
-C09.c  ChannelManager::channel_monitor_updated (region: from its entry to the decision to resume): a channel is resumed
-       only when no in-flight update is left.
 C09.d  FundedChannel::monitor_updating_restored (region: from the peer-connected test to the end): only messages that
        were being held are released, the hold flags are cleared, the order is the recorded one.
 """
